@@ -316,7 +316,7 @@ def run_job(job, prop_id, workroot, tier):
             args += ["--loop-contracts-file", loops_file, "--apply-loop-contracts"]
         elif job.get("inline_loop_contracts"):
             args += ["--apply-loop-contracts"]
-        args += job.get("dfcc_flags", [])
+        args += [a.replace("${REPO}", REPO) for a in job.get("dfcc_flags", [])]
         if not gi(args, "goto-instrument --dfcc"):
             res.total_s = time.time() - t_start
             return res
